@@ -39,4 +39,13 @@ LEVEL["C15"] = {
     "design_ref": "DESIGN.md 4/C15", "note": _TOKNOTE, "technique": "Lean 4 proof (factorisation through a raw-segmentation spec, fuel-independence, induction on remaining input) + correspondence check",
 }
 
+LEVEL["C01"] = {
+    "text": "Lean theorems: compiler correctness of the RPN evaluator (run on post-order = direct tree evaluation, for every tree, environment and variant-operation table), parentheses/unary-plus irrelevance, left associativity, the precedence table; with C02_complete this is calculator = syntax-tree value. Tied to the Go calculator by generated trees in three parenthesisation modes under random typed assignments, the full operator-pair matrix, a Go-side tree evaluator as oracle and the Lean evaluator model run on the implementation's own compiled program.",
+    "design_ref": "DESIGN.md 4/C01", "note": _NOTE, "technique": "Lean 4 proof (compiler correctness by mutual structural induction over syntax trees) + correspondence check",
+}
+LEVEL["C02"] = {
+    "text": "Lean theorems: completeness (every sentence of the grammar is accepted and compiled to the post-order of its tree, explicit fuel bound = termination) and soundness (every accepted token sequence is the unparse of a well-levelled tree and the output its post-order) of the 7-level recursive-descent parser model. Tied to the Go parser by exhaustive token-class sequences, generated sentences and token-level mutants, with an independent CFG recogniser as accept/reject oracle.",
+    "design_ref": "DESIGN.md 4/C02", "note": _NOTE, "technique": "Lean 4 proof (parser completeness + soundness w.r.t. a tree grammar, fuel monotonicity) + correspondence check",
+}
+
 NOT_APPLICABLE = {}
